@@ -1,11 +1,12 @@
 #!/usr/bin/env python3
-"""usage: tools/seed_prompt.py Cxx [suffix]  -> writes /tmp/seed/prompt_<id><suffix>.txt
+"""usage: tools/seed_prompt.py Cxx [suffix] [extra]  -> writes /tmp/seed/prompt_<id><suffix>.txt (mkdir -p /tmp/seed first)
 (the prompt contains only the property's text; nothing from /verif)"""
 import json, sys
 pid = sys.argv[1]
 suf = sys.argv[2] if len(sys.argv) > 2 else ""
 extra = sys.argv[3] if len(sys.argv) > 3 else ""
-tpl = open("/tmp/seed/template.txt").read()
+import os
+tpl = open(os.path.join(os.path.dirname(os.path.abspath(__file__)), "seed_template.txt")).read()
 for l in open("/verif/properties.jsonl"):
     p = json.loads(l)
     if p["id"] == pid:
